@@ -257,7 +257,7 @@ func costs(c *core.Ctx, kind string, width int, src []byte) (uint64, uint64, boo
 type decStats struct {
 	streams, goOK, goErr       int
 	lenient, strict, emptyRuns int // Go vs the specification decoder
-	overread, quirks           int
+	overread, quirks, specTurn int
 	foreign, foreignCut        int
 	exOverread, exEmpty        map[string]string
 	exQuirk                    map[string]string
@@ -273,7 +273,11 @@ var overreadTolerated = map[string]bool{}
 // stream.  Returns false when something was reported.
 func (k *checker) tieStream(kind string, width int, stream []byte, what string, goBytes bool) bool {
 	c := k.c
-	goCost, specCost, emptyRun := costs(c, kind, width, stream)
+	var goCost, specCost uint64
+	var emptyRun bool
+	if !goBytes { // Go's own encodings are not hostile
+		goCost, specCost, emptyRun = costs(c, kind, width, stream)
+	}
 	if goCost > costLimit {
 		return true
 	}
@@ -327,7 +331,9 @@ func (k *checker) tieStream(kind string, width int, stream []byte, what string, 
 			stats.exOverread[kind] = fmt.Sprintf("width %d stream %s: cap=len gives %s, 64 spare bytes of 0xAA give %s", width, core.Hexs(stream), g, g2)
 		}
 	}
-	if !goBytes && specCost <= costLimit && specComparable(kind) {
+	// (the specification decoders of the DELTA encodings are slow: every other stream in the quick tier)
+	stats.specTurn++
+	if !goBytes && specCost <= costLimit && specComparable(kind) && (isRLE(kind) || !c.Quick() || stats.specTurn%2 == 0) {
 		spec := specDecode(c, kind, width, stream)
 		switch {
 		case g.status == "ok" && spec == "NONE":
